@@ -145,6 +145,7 @@ TxDecode(b, own, mtu) ==
       shape == CASE op = OpHello -> n >= 47 /\ TLVListOK(tl)
                  [] op \in {OpProbe, OpTrain, OpAck} -> n = 32
                  [] op = OpQueryResp -> n >= 34 /\ n = 34 + 20 * cnt
+                                        /\ \A i \in 1..cnt : U16(b, 35 + 20 * (i - 1)) \in {0, 1}     \* descriptor type: Train / Probe
                  [] op = OpQueryLargeResp -> n >= 34 /\ n = 34 + cnt
                  [] OTHER -> FALSE
   IN [ n    |-> n,
